@@ -3,7 +3,7 @@
 patch="$1"; shift
 cd /repo || exit 2
 if ! git apply --check "$patch" 2>/dev/null; then
-  if ! git apply --3way "$patch" 2>/dev/null; then echo "PATCH-DOES-NOT-APPLY $patch"; git checkout -- . ; exit 3; fi
+  if ! git apply --3way "$patch" 2>/dev/null; then echo "PATCH-DOES-NOT-APPLY $patch"; git reset -q --hard HEAD; exit 3; fi
   git reset -q
 else
   git apply "$patch"
